@@ -147,8 +147,9 @@ INSENSITIVE_CALLS = ('saturating_sub', 'checked_sub', 'min', 'max', 'clamp', 'ab
 CONSTRUCTOR_FNS = ('new', 'validate', 'init', 'deserialize', 'from_parts', 'from', 'try_from', 'from_str', 'default', 'empty')
 
 # step-function sites argued by hand (function definition path, operation) -> one-line argument
+SLOT_FN = '@Window index->slot mapping'       # resolved by role (wroles.py): `Window::slice_index` today
 WIDTH_TABLE = {
-    ('core::window::Window::<T>::slice_index', 'call saturating_add'):
+    (SLOT_FN, 'call saturating_add'):
         'the saturated sum is used only multiplied by (1 - overflow) where overflow = (saturated >= size): whenever the true sum '
         'exceeds the type it also exceeds size <= MAX-1, so the saturated value is discarded in every width',
     ('<methods::highest_lowest_index::HighestIndex as core::method::Method>::next', 'cast usize'):
@@ -168,6 +169,9 @@ def s21_ops(ctx):
     ta, tb = WIDTHS['default'][0], WIDTHS[fs][0]
     used_table = set()
     n_sens = 0
+    import wroles
+    slot_path = wroles.window_roles(fd).slot_fn_path
+    WIDTH_TABLE = {((slot_path if k_[0] == SLOT_FN else k_[0]), k_[1]): v_ for k_, v_ in globals()['WIDTH_TABLE'].items()}
     # a private helper all of whose callers are constructor-like is constructor-like itself (a range check moved out of deserialize, ...)
     callers = {}
     for k0, a0 in fd.bodies.items():
